@@ -8,20 +8,22 @@ Proof. destruct k; reflexivity. Qed.
 Lemma inv2_run k t es : inv2 (run (init k t) es) = true.
 Proof. apply run_ind; [apply inv2_init|intros; now apply inv2_step]. Qed.
 
+Lemma inv3_run k t es : inv3 (run (init k t) es) = true.
+Proof. apply run_ind; [destruct k; reflexivity|intros; now apply inv3_step]. Qed.
+
 (* ------------------------------------------------------------------ 3. property lemmas *)
-Lemma nolate_facts k t es :
+Lemma run_facts k t es :
   let c := run (init k t) es in
-  late_accept c = false -> late_connect c = false ->
-  viol c = false /\ (kd c <> Server -> twice c = false /\ bad_deliv c = 0 /\ bad_sent c = 0).
+  viol c = false /\
+  (kd c <> Server -> twice c = false /\ bad_deliv c = 0 /\ bad_sent c = 0 /\ (seen_closed c = true -> st c = CLOSED)).
 Proof.
-  intros c Ha Hc. pose proof (inv2_run k t es) as H. fold c in H.
-  unfold inv2, nolateb in H. rewrite Ha, Hc in H. cbn in H.
-  repeat (apply andb_true_iff in H; destruct H as [H ?]).
+  intros c. pose proof (inv2_run k t es) as H. fold c in H. unfold inv2 in H.
   repeat match goal with X : _ && _ = true |- _ => apply andb_true_iff in X; destruct X end.
   split; [now apply negb_true_iff|].
   intros Hk. destruct (kd c); try congruence; cbn in *;
     repeat match goal with X : _ && _ = true |- _ => apply andb_true_iff in X; destruct X end;
-    repeat split; try (now apply negb_true_iff); now apply Nat.eqb_eq.
+    (repeat split; try (now apply negb_true_iff); try (now apply Nat.eqb_eq));
+    intros Hs; match goal with X : negb (seen_closed c) || _ = true |- _ => rewrite Hs in X; cbn in X; now apply cst_eqb_eq in X end.
 Qed.
 
 Lemma kd_dd c : kd (fst (do_disconnect c)) = kd c.
@@ -40,31 +42,44 @@ Qed.
 Lemma kd_run k t es : kd (run (init k t) es) = k.
 Proof. apply (run_ind (fun c => kd c = k)); [reflexivity|intros; now rewrite kd_step]. Qed.
 
-Lemma monotone_partial k t es :
-  let c := run (init k t) es in
-  late_accept c = false -> late_connect c = false -> chain k (reported c).
+Lemma monotone k t es : chain k (reported (run (init k t) es)).
 Proof.
-  intros c Ha Hc. destruct (nolate_facts k t es Ha Hc) as [Hv _]. fold c in Hv.
-  pose proof (LI_run k t es) as (_ & _ & H3 & _). fold c in H3.
-  unfold reported. apply chain_rev_chain. rewrite <- (kd_run k t es). now apply H3.
+  destruct (run_facts k t es) as [Hv _].
+  pose proof (LI_run k t es) as (_ & _ & H3 & _).
+  unfold reported. apply chain_rev_chain. rewrite (kd_run k t es) in H3. now apply H3.
 Qed.
 
-Lemma closed_once_last_partial k t es :
-  let c := run (init k t) es in
-  k <> Server -> late_accept c = false -> late_connect c = false -> closed_last (reported c).
+Lemma closed_once_last k t es : k <> Server -> closed_last (reported (run (init k t) es)).
 Proof.
-  intros c Hk Ha Hc. destruct (nolate_facts k t es Ha Hc) as [_ Ht]. fold c in Ht.
-  pose proof (kd_run k t es) as Ek. fold c in Ek. rewrite Ek in Ht. destruct (Ht Hk) as (Ht' & _).
-  pose proof (LI_run k t es) as (_ & _ & _ & H4). fold c in H4. rewrite Ek in H4.
+  intros Hk. destruct (run_facts k t es) as [_ Ht].
+  pose proof (kd_run k t es) as Ek. rewrite Ek in Ht. destruct (Ht Hk) as (Ht' & _).
+  pose proof (LI_run k t es) as (_ & _ & _ & H4). rewrite Ek in H4.
   unfold reported. apply closed_head_closed_last. now apply H4.
 Qed.
 
-Lemma ghosts_partial k t es :
-  let c := run (init k t) es in
-  k <> Server -> late_accept c = false -> late_connect c = false -> bad_deliv c = 0 /\ bad_sent c = 0.
+(* after CLOSED was reported for a peer connection its state is CLOSED for good *)
+Lemma closed_is_final k t es : k <> Server ->
+  let c := run (init k t) es in In CLOSED (reported c) -> st c = CLOSED.
 Proof.
-  intros c Hk Ha Hc. destruct (nolate_facts k t es Ha Hc) as [_ Ht]. fold c in Ht.
-  pose proof (kd_run k t es) as Ek. fold c in Ek. rewrite Ek in Ht. now destruct (Ht Hk) as (_ & ? & ?).
+  intros Hk c Hin. destruct (run_facts k t es) as [_ Ht].
+  pose proof (kd_run k t es) as Ek. rewrite Ek in Ht. destruct (Ht Hk) as (_ & _ & _ & Hs).
+  apply Hs. pose proof (LI_run k t es) as (_ & H2 & _). apply H2. unfold reported in Hin. now apply in_rev.
+Qed.
+
+Lemma ghosts_zero k t es : k <> Server ->
+  let c := run (init k t) es in bad_deliv c = 0 /\ bad_sent c = 0.
+Proof.
+  intros Hk c. destruct (run_facts k t es) as [_ Ht].
+  pose proof (kd_run k t es) as Ek. rewrite Ek in Ht. now destruct (Ht Hk) as (_ & ? & ? & _).
+Qed.
+
+Lemma registry_exact k t es :
+  let c := run (init k t) es in
+  quiescent c = true -> in_reg c = should_be_registered c.
+Proof.
+  intros c Hq. pose proof (inv3_run k t es) as H. fold c in H.
+  unfold inv3, quiescent, should_be_registered in *.
+  destruct (kd c), (at_ c), (writer c), (in_reg c), (closers c), (st c); cbn in *; congruence.
 Qed.
 
 (* one-step facts, for EVERY state c (reachable or not) *)
@@ -75,7 +90,7 @@ Lemma disconnect_idempotent c r : closing (st c) = true ->
   rep (step c (Disconnect r)) = rep c /\ st (step c (Disconnect r)) = st c /\ in_reg (step c (Disconnect r)) = in_reg c.
 Proof.
   intros H. unfold step. destruct (created_guard c (Disconnect r)); [tauto|]. cbn [step0].
-  unfold do_disconnect. rewrite H. destruct (at_ c); norm; tauto.
+  unfold do_disconnect. rewrite H. norm; tauto.
 Qed.
 
 Lemma no_delivery_while_closing c x : closing (st c) = true -> delivered (step c (ReaderGets x)) = delivered c.
@@ -95,37 +110,4 @@ Proof.
   intros H c'. subst c'. destruct (dd_cases c) as [(? & E)|[(? & ? & E)|(? & ? & E)]]; [congruence| |];
     rewrite E; cbn [fst]; norm; cbn; split; intros; try congruence; tauto.
 Qed.
-
-(* witnesses *)
-Definition wit_F14 : list event := [Accept; InitRead IEof; CloseDone; AcceptReturns].
-Definition wit_F15 : list event := [Create; ConnectStart; Cancel].
-Definition wit_N1 : list event := [Create; ConnectStart; Disconnect RRequested; ConnectOk; SendInit SOk; ReaderGets XMsg; Send SOk].
-
-Lemma monotone_refuted : exists k t es, ~ chain k (reported (run (init k t) es)).
-Proof. exists Incoming, TP, wit_F14. vm_compute. intros (_ & H & _). discriminate. Qed.
-
-Lemma closed_once_last_refuted : exists k t es, k <> Server /\ ~ closed_last (reported (run (init k t) es)).
-Proof. exists Incoming, TP, wit_F14. split; [discriminate|]. vm_compute. intros (_ & H & _). specialize (H eq_refl). discriminate. Qed.
-
-Lemma no_delivery_after_closed_refuted : exists k t es c x,
-  k <> Server /\ c = run (init k t) es /\ In CLOSED (reported c) /\ delivered (step c (ReaderGets x)) = S (delivered c).
-Proof.
-  exists Outgoing, TP, (firstn 5 wit_N1), (run (init Outgoing TP) (firstn 5 wit_N1)), XMsg.
-  split; [discriminate|]. split; [reflexivity|]. vm_compute. split; [tauto|reflexivity].
-Qed.
-
-Lemma send_after_closed_refuted : exists k t es c,
-  k <> Server /\ c = run (init k t) es /\ In CLOSED (reported c) /\ sent (step c (Send SOk)) = S (sent c).
-Proof.
-  exists Outgoing, TP, (firstn 6 wit_N1), (run (init Outgoing TP) (firstn 6 wit_N1)).
-  split; [discriminate|]. split; [reflexivity|]. vm_compute. split; [tauto|reflexivity].
-Qed.
-
-Lemma registry_exact_refuted : exists k t es,
-  let c := run (init k t) es in quiescent c = true /\ in_reg c <> should_be_registered c.
-Proof. exists Outgoing, TP, wit_F15. vm_compute. split; [reflexivity|discriminate]. Qed.
-
-Lemma registry_exact_refuted_N1 : exists k t es,
-  let c := run (init k t) es in quiescent c = true /\ in_reg c = false /\ should_be_registered c = true.
-Proof. exists Outgoing, TP, wit_N1. vm_compute. repeat split. Qed.
 
